@@ -402,6 +402,8 @@ def body_degenerate(ctx, case):
         crop = ctx.must("crop_raises_on_degenerate_line", eng.crop, img, base.copy(), list(case["heights"]))
     ctx.check(isinstance(crop, np.ndarray) and crop.ndim == 3 and crop.shape[0] == case["line_height"], "degenerate_crop_wrong_height",
               lambda: "shape %r; " % (getattr(crop, "shape", None),) + desc())
+    ctx.check(crop.shape[2] == 3 and crop.dtype == np.uint8 and crop.shape[1] >= 1, "degenerate_crop_not_an_image_like_the_page",
+              lambda: "shape %r dtype %r; " % (crop.shape, crop.dtype) + desc())
     cp = configparser.ConfigParser()
     cp["LINE_CROPPER"] = {"INTERP": str(case["poly"]), "LINE_SCALE": str(case["scale"]), "LINE_HEIGHT": str(case["line_height"])}
     lc = LineCropper(cp["LINE_CROPPER"])
